@@ -4,6 +4,7 @@ package main
 
 import (
 	"fmt"
+	"go/constant"
 	"go/token"
 	"go/types"
 	"sort"
@@ -284,6 +285,9 @@ func registersOnlyOnSuccess(reg ssa.Instruction) bool {
 		if !isNilConst(retResult(r, errIdx)) {
 			// a later error return after having registered
 			if b != reg.Block() || instrIndex(r) > instrIndex(reg) {
+				if setWasNoOpAt(reg, r) {
+					continue // the flag was set already: this caller did not register anything
+				}
 				return false
 			}
 		}
@@ -291,8 +295,52 @@ func registersOnlyOnSuccess(reg ssa.Instruction) bool {
 	return true
 }
 
+// setWasNoOpAt: reg is `x.flag = true` and every path to the return r has passed the true arm of a
+// test of the value the same flag had right before the store (`was := x.flag; x.flag = true; …
+// if was { return err }`): on that path the store changed nothing, the flag belongs to another caller.
+func setWasNoOpAt(reg ssa.Instruction, r *ssa.Return) bool {
+	st, ok := reg.(*ssa.Store)
+	if !ok {
+		return false
+	}
+	k, isK := st.Val.(*ssa.Const)
+	if !isK || k.Value == nil || k.Value.Kind() != constant.Bool || !constant.BoolVal(k.Value) {
+		return false
+	}
+	fa, ok := st.Addr.(*ssa.FieldAddr)
+	if !ok {
+		return false
+	}
+	fld := fieldOfAddr(fa)
+	// the load of the flag before the store, in the same block, nothing written in between
+	var before *ssa.UnOp
+	for _, in := range st.Block().Instrs {
+		if in == ssa.Instruction(st) {
+			break
+		}
+		switch x := in.(type) {
+		case *ssa.UnOp:
+			if fa2, isFA := x.X.(*ssa.FieldAddr); isFA && x.Op == token.MUL && fieldOfAddr(fa2) == fld && sameObject(fa2.X, fa.X) {
+				before = x
+			}
+		case *ssa.Store:
+			if fa2, isFA := x.Addr.(*ssa.FieldAddr); isFA && fieldOfAddr(fa2) == fld {
+				before = nil
+			}
+		case *ssa.Call:
+			before = nil // a call may write the flag, and releasing the lock lets another caller do so
+		}
+	}
+	if before == nil {
+		return false
+	}
+	return hasFact(FactsAt(r), func(f Fact) bool {
+		return f.Op == 0 && f.True && strip(f.Bool) == ssa.Value(before)
+	})
+}
+
 func checkC12(c *Ctx) {
-	c.explanation = "Static decision on threshold's SSA of: (O1) every registration into the topic-keyed handler tables / dkgRunning is paired with a release of the same table and the same key value that runs on all exits — of the registering function (deferred, explicit on every arm, or by the Synchronize continuation axiom), or of the API entry by a deferred release that is armed before the registration can happen (or immediately after it, with only the registration's own failure arm in between); (L1) the existence test that refuses a duplicate topic / a second key generation and the insertion lie in one exclusive critical section of Scheme.lock; (G1) the dispatcher invokes a handler only on the found arm of the topic-keyed lookup; (W1) Scheme fields are written only by the frozen writer set (no per-session object is stored in the Scheme). Not decided: a continuation still running after the API call returned can register after the deferred cleanup (no session token) — documented limitation; independence of concurrent sessions beyond table keys."
+	c.explanation = "Static decision on threshold's SSA of: (O1) every registration into the topic-keyed handler tables / dkgRunning is paired with a release of the same table and the same key value that runs on all exits — of the registering function (deferred, explicit on every arm, or by the Synchronize continuation axiom), or of the API entry by a deferred release that is armed before the registration can happen (or immediately after it, with only the registration's own failure arm in between); (L1) the existence test that refuses a duplicate topic / a second key generation and the insertion lie in one exclusive critical section of Scheme.lock, and (L2) the refused arm of that test stores nothing (a set of a flag that was already set is not a store); (G1) the dispatcher invokes a handler only on the found arm of the topic-keyed lookup; (W1) Scheme fields are written only by the frozen writer set (no per-session object is stored in the Scheme). Not decided: a continuation still running after the API call returned can register after the deferred cleanup (no session token) — documented limitation; independence of concurrent sessions beyond table keys."
 	c.notDecided = "registrations performed by a continuation that outlives the API call; independence of concurrent sessions beyond the table keys"
 	c.Assume("Synchronizer.Synchronize returns nil iff it ran its continuation to completion (decided for both implementations by C07.O1)")
 	t := buildThresholdModel(c)
@@ -654,7 +702,23 @@ func checkC12(c *Ctx) {
 			if hv == nil || hv.Referrers() == nil {
 				continue
 			}
-			for _, use := range *hv.Referrers() {
+			// (a conversion between a named func type and its underlying type is not a use)
+			var uses []ssa.Instruction
+			var collect func(v ssa.Value, d int)
+			collect = func(v ssa.Value, d int) {
+				if v.Referrers() == nil || d > 3 {
+					return
+				}
+				for _, ref := range *v.Referrers() {
+					if ct, isCT := ref.(*ssa.ChangeType); isCT {
+						collect(ct, d+1)
+						continue
+					}
+					uses = append(uses, ref)
+				}
+			}
+			collect(hv, 0)
+			for _, use := range uses {
 				ci, ok := use.(ssa.CallInstruction)
 				if !ok {
 					continue
